@@ -139,7 +139,7 @@ func ModRMByOperand(modeStr string, regOperand string, rmOperand string, bitMode
 		}
 
 		out := []byte{modrmByte}
-		if sibByte != 0 { // Check if SIB byte is present
+		if sibByte != 0 || hasSIBByte(modrmByte, memInfo) { // Check if SIB byte is present (its value may be 0x00)
 			out = append(out, sibByte)
 		}
 		if len(dispBytes) > 0 {
@@ -201,7 +201,7 @@ func ModRMByValue(modeStr string, regValue int, rmOperand string, bitMode cpu.Bi
 		}
 
 		out := []byte{modrmByte}
-		if sibByte != 0 { // Check if SIB byte is present
+		if sibByte != 0 || hasSIBByte(modrmByte, memInfo) { // Check if SIB byte is present (its value may be 0x00)
 			out = append(out, sibByte)
 		}
 		if len(dispBytes) > 0 {
@@ -457,6 +457,15 @@ calculate_32bit_addressing: // Label for the 32-bit logic start
 
 	modrmByte = mod | regBits | rm
 	return modrmByte, sibByte, dispBytes, nil
+}
+
+// hasSIBByte は calculateModRM が返した ModR/M に SIB バイトが続くかどうかを返します。
+// SIB バイトの値が 0x00 ([EAX+EAX] = scale 1, index EAX, base EAX) の場合も SIB は存在します。
+func hasSIBByte(modrmByte byte, mem *ng_operand.MemoryInfo) bool {
+	if mem == nil || modrmByte>>6 == 0b11 || modrmByte&0b111 != 0b100 {
+		return false
+	}
+	return is32BitRegister(mem.BaseReg) || is32BitRegister(mem.IndexReg)
 }
 
 // GetRegisterNumber はレジスタ名からレジスタ番号（0-7）を取得する
